@@ -309,6 +309,58 @@ def region_tie(ctx, dis, cases):
     ctx.cov.add_cases("known-finding region (Python) vs noSuffixShapedBase (Lean)", len(cases), n_in, False, mode="C")
 
 
+def repro_modes(src, rng, n_inproc=2, n_shift=3, fresh=False):
+    """Generate one tie-design several times and compare the texts (modulo the date lines) with the first one:
+    (b) repeated generations in this interpreter, (c) generations after creating extra dummy objects first
+    (shifts DUIDs and heap addresses), (a) fresh interpreters with different PYTHONHASHSEED (with and without
+    shift).  Returns a failure description (mode, shift, differing lines) or None."""
+    procs = []
+    if fresh:
+        procs = [("a: fresh interpreter PYTHONHASHSEED=1", 0, L.repro_fresh(src, 0, 1)),
+                 ("a: fresh interpreter PYTHONHASHSEED=4242", 0, L.repro_fresh(src, 0, 4242))]
+        sh = rng.randint(1, 30)
+        procs.append(("a+c: fresh interpreter PYTHONHASHSEED=77, %d dummy rounds first" % sh, sh, L.repro_fresh(src, sh, 77)))
+    base = L.repro_generate(src, 0)
+    fail = None
+    plan = [("b: repeated generation in one interpreter", 0)] * n_inproc + \
+           [("c: generation after creating extra dummy objects", rng.randint(1, 40)) for _ in range(n_shift)]
+    for mode, shift in plan:
+        t = L.repro_generate(src, shift)
+        if t != base and fail is None:
+            fail = {"mode": mode, "shift": shift, "diff": L.text_diff(base, t)}
+    for mode, shift, p in procs:
+        o, e = p.communicate(timeout=300)
+        shutil.rmtree(p._c02_dir, ignore_errors=True)
+        if p.returncode != 0:
+            if fail is None:
+                fail = {"mode": mode, "shift": shift, "machinery": e[-400:]}
+        elif o != base and fail is None:
+            fail = {"mode": mode, "shift": shift, "diff": L.text_diff(base, o)}
+    return fail
+
+
+def repro_ties_check(ctx, dis, ndesigns, nfresh, rng=None):
+    """Designs with >= 2 memories / >= 2 instances sharing a base name and >= 2 signals with indistinguishable
+    hierarchical names: the text must be a function of the design alone."""
+    rng = rng or random.Random(ctx.rng.randrange(1 << 30))
+    ok = gens = 0
+    for k in range(ndesigns):
+        src = L.gen_repro_source(rng)
+        fresh = k < nfresh
+        f = repro_modes(src, rng, fresh=fresh)
+        gens += 6 + (3 if fresh else 0)
+        if f is None:
+            ok += 1
+        elif "machinery" in f:
+            dis.append({"kind": "repro-machinery", "payload": {"repro_src": src}, "out": f})
+        else:
+            dis.append({"kind": "monitor", "case": "reproducibility", "payload": {"repro_src": src, "mode": f["mode"], "shift": f["shift"]},
+                        "oracle": ["text differs between two generations of the same design (%s)" % f["mode"]] + f["diff"]})
+    ctx.cov.add_cases("tie designs (>=2 memories, >=2 instances sharing a base name, >=2 indistinguishable signals): repeated / "
+                      "DUID-shifted / fresh-interpreter generations give one text (validated, not proved)", gens, ok * 5, False, mode="repro")
+    ctx.log("reproducibility tie designs: %d designs, %d generations, %d differing" % (ndesigns, gens, ndesigns - ok))
+
+
 def sensitivity_selftest(ctx, dis):
     """The comparison must flag a perturbed model answer."""
     c = {"kw": True, "bases": ["x", "x"], "ovr": [False, True], "reqs": [0, 1]}
@@ -319,6 +371,22 @@ def sensitivity_selftest(ctx, dis):
             or L.check_names([(0, "wire")]) == [] or L.check_names([(0, "a b")]) == [] \
             or L.check_names([(0, "x"), (0, "y")]) == []:
         dis.append({"kind": "selftest", "real": real, "model": model})
+
+
+class Dis:
+    """A disagreement as an object (the runner hands only non-dict disagreements to `search`)."""
+
+    def __init__(self, d):
+        self.d = d
+
+    def get(self, k, default=None):
+        return self.d.get(k, default)
+
+    def __getitem__(self, k):
+        return self.d[k]
+
+    def to_json(self):
+        return self.d
 
 
 def correspond(ctx):
@@ -402,6 +470,7 @@ def correspond(ctx):
         ctx.cov.samples.append({"convert_cases": ncases, "get_name_requests_compared": nreq})
     ctx.log("convert(): %d designs, %d get_name requests compared" % (ncases, nreq))
     reproducibility_check(ctx, dis, 4 if quick else 24)
+    repro_ties_check(ctx, dis, 16 if quick else 150, 3 if quick else 20)
     ctx.log("reproducibility check done; %d disagreements in total" % len(dis))
     ex = L.gen_getname_case(random.Random(1))
     ctx.cov.samples.append({"getname_case": ex, "lean_line": L.lean_getname_line(ex)})
@@ -410,7 +479,8 @@ def correspond(ctx):
     # store minimised disagreements
     for k, d in enumerate(dis[:3]):
         d["shrunk"] = shrink(ctx, d)
-    return dis
+    ctx.c02_dis = dis
+    return [Dis(d) for d in dis]
 
 
 # ----------------------------------------------------------------------------------------------------------
@@ -593,8 +663,20 @@ def _real_failure(ctx, kind, payload, respect_known=True):
 
 def search(ctx, disagreements, proof_info):
     rng = random.Random(ctx.seed + 77)
-    # 1. the disagreeing inputs themselves
+    disagreements = getattr(ctx, "c02_dis", None) or [getattr(d, "d", d) for d in disagreements]
+    # 0. a reproducibility / text monitor already holds a concrete input (design + differing lines)
     for d in disagreements:
+        if d.get("kind") == "monitor" and d.get("case") in ("keywords", "reproducibility", "convert-text"):
+            return {"case": d["case"], "input": d.get("payload"), "oracle_failures": [d.get("oracle")]}
+    # 0b. naming depends on iteration order?  tie designs, more of them than in the correspondence run
+    if disagreements:
+        tmp = []
+        repro_ties_check(ctx, tmp, 40 if ctx.tier == "quick" else 200, 0, rng=random.Random(ctx.seed + 78))
+        for d in tmp:
+            if d.get("kind") == "monitor":
+                return {"case": d["case"], "input": d.get("payload"), "oracle_failures": [d.get("oracle")]}
+    # 1. the disagreeing inputs themselves
+    for d in disagreements[:400]:
         kind = d.get("case") if d.get("kind") == "monitor" else d.get("kind")
         for p in (d.get("shrunk"), d.get("payload")):
             if p:
@@ -691,6 +773,12 @@ def replay(ctx, payload):
         bad = named[0][1] in L.IEEE_1364_2005
         print("replay: signal named %r is emitted as %r -> %s" % (f["input"]["signal_name"], named[0][1], "STILL FAILS" if bad else "passes"))
         return 1 if bad else 0
+    if f.get("case") == "reproducibility" and "repro_src" in (f.get("input") or {}):
+        r = None
+        for k in range(6):
+            r = r or repro_modes(f["input"]["repro_src"], random.Random(k), fresh=(k == 0))
+        print("replay: tie design generated repeatedly:", json.dumps(r)[:1500] if r else "one text every time -> passes")
+        return 1 if r else 0
     if f.get("case") == "reproducibility":
         p = f["input"]
         procs = [L.convert_in_fresh_interpreter(p["src"], p["seed"], hs) for hs in (1, 4242)]
